@@ -22,7 +22,7 @@ class NodeVisitor(object):
                 self.visit(value)
 
     def visit_Constant(self, node):
-        if node.value in [None, True, False]:
+        if node.value is None or node.value is True or node.value is False:
             method = 'visit_NameConstant'
         elif isinstance(node.value, (int, float, complex)):
             method = 'visit_Num'
